@@ -2,6 +2,7 @@
 from __future__ import annotations
 
 import ast
+import re
 
 from oracles import tables as O
 from sa.absint import AObj, EnumV, FlagV, Interp, Opaque, Sym, Tok, to_text
@@ -205,9 +206,11 @@ def r09_2(ctx):
     ctx.check("IR nodes have no truth value of their own (__bool__ / __len__)", not truthy, "none defined", str(truthy), "rzilcompiler/Transformer/Pures/Pure.py")
     # --- constant condition of ?:
     r = Runner(idx, keep_real=("simplify_conditional_expr",))
+    from .c05 import origin
+
     for val, exp in ((1, "items[1]"), (0, "items[2]"), (7, "items[1]")):
         fi, outs = r.run("simplify_conditional_expr", lambda val=val: [[number(r, "c", val, True, 32), r.pure("items[1]"), r.pure("items[2]")]], args_list=True)
-        ctx.check(f"constant condition {val} selects", [lab(o.value) for o in outs] == [exp], exp, str([lab(o.value) for o in outs]), fn_where(idx, fi))
+        ctx.check(f"constant condition {val} selects", bool(outs) and all(origin(lab(o.value)) == exp for o in outs), exp, str([lab(o.value) for o in outs]), fn_where(idx, fi))
     fi, outs = r.run("simplify_conditional_expr", lambda: [[r.pure("c"), r.pure("items[1]"), r.pure("items[2]")]], args_list=True)
     ctx.check("non-constant condition is not folded", [o.value for o in outs] == [None], "None", str([lab(o.value) for o in outs]), fn_where(idx, fi))
 
@@ -217,6 +220,43 @@ def r09_7(ctx):
     from .c05 import signed_division_opcode
 
     signed_division_opcode(ctx)
+
+
+def folded_conditional_type(ctx):
+    """`c ? a : b` has the type the usual arithmetic conversions give a and b, whichever arm is selected (C11 6.5.15p5) - also when c is
+    a constant and the compiler selects the arm itself: the folded expression must have the type of its run-time twin"""
+    idx = get_index(ctx.env)
+    name = lambda t: f"{'s' if t[0] else 'u'}{t[1]}"
+    for t1, t2 in (((True, 32), (True, 32)), ((True, 32), (False, 32)), ((False, 32), (True, 32)), ((True, 8), (True, 64)), ((False, 8), (False, 16)), ((False, 32), (True, 64)), ((True, 64), (False, 64))):
+        common = O.c_common(t1, t2)
+        for cv, sel, own in ((1, "items[1]", t1), (0, "items[2]", t2)):
+            r = Runner(idx, keep_real=("simplify_conditional_expr", "promotion_cast"))
+            fi, outs = r.run("simplify_conditional_expr", lambda: [[number(r, "c", cv, True, 32), r.pure("items[1]", vt=mk_vt("t1", *t1)), r.pure("items[2]", vt=mk_vt("t2", *t2))]], args_list=True)
+            obs = []
+            ok = bool(outs)
+            for o in outs:
+                l = lab(o.value)
+                m = re.match(r"Conv\(\(([su]),(\d+)\),", l)
+                if l.startswith("Common("):
+                    got = common  # converted by the helper whose summary this label is (its body is checked by R02.3 / R04.x)
+                elif m:
+                    got = (m.group(1) == "s", int(m.group(2)))
+                else:
+                    got = own
+                obs.append(f"{l} : {name(got)}")
+                ok = ok and o.kind != "raise" and origin_of(l) == sel and got == common
+            ctx.check(f"{name(t1)} and {name(t2)} arms, constant condition {cv}: type of the folded ?:", ok, f"{sel} converted to {name(common)}", " | ".join(obs)[:120], fn_where(idx, fi), nontrivial=(own != common))
+
+
+def origin_of(label):
+    from .c05 import origin
+
+    return origin(label)
+
+
+@rule("R09.8", "C09", "a `?:` with a constant condition has the type of its run-time twin: the common type of both arms", min_instances=14)
+def r09_8(ctx):
+    folded_conditional_type(ctx)
 
 
 @rule("R09.3", "C09", "removal safety: operands that can have other users (de-duplicated by name) are only removed under a use-count guard", min_instances=4)
